@@ -54,6 +54,16 @@ def scenarios(tier):
     # two connections: one is busy with a request / watchdog while the other one is being established, used and lost
     out.append(("two-connections", "hold", 0, "answer", ["refused"], [("accept",), ("m", 0, "cer_p0"), ("m", 0, "req"), ("accept",), ("m", 1, "cer_p1"), ("m", 1, "req"),
                                                                        ("ans", 0), ("m", 1, "dpr"), ("ans", 1), ("m", 0, "dwr"), ("eof", 1), ("m", 0, "req"), ("ans", 2)]))
+    # both ends dial each other: the node's own dial awaits its CEA while the same peer completes a CER on an inbound connection
+    out.append(("mutual-dial", "basic", 0, "answer", ["ok"], [("accept",), ("m", 1, "cer_p2"), ("m", 1, "req"), ("m", 0, "cea_ok"), ("m", 0, "req"),
+                                                              ("eof", 1), ("m", 0, "req"), ("tick", 1)]))
+    # two connections with one slow request each, handled concurrently; the first connection is lost while its handler works; both
+    # handlers finish in the same instant (run under the policy "the answer consumer gets the CPU last", so that both results queue up)
+    for limit in (2, 3):
+        out.append((f"threading-limit{limit}-two-slow-requests/consumer-last", "threading", limit, "slow", ["refused"],
+                    [("accept",), ("m", 0, "cer_p0"), ("accept",), ("m", 1, "cer_p1"), ("m", 0, "req"), ("m", 1, "req"), ("tick", 1), ("eof", 0),
+                     ("tick", 2), ("m", 1, "dwr"), ("tick", 2), ("m", 1, "dwr"), ("tick", 2), ("m", 1, "dwr"), ("m", 1, "req"),      # (watchdog traffic keeps the connection alive)
+                     ("tick", 2), ("m", 1, "dwr"), ("tick", 2), ("m", 1, "dwr"), ("tick", 3), ("m", 1, "dwr")]))
     limits = (0, 1, 2, 3)
     for limit in limits:
         for outcome in OUTCOMES:
@@ -152,6 +162,8 @@ def run_scenario(spec, fault=None, cut=None, fine=False):
                     ch.active = True
             nw.world.step_hooks[base + fault[0]] = hook
         nw.world.points_on = fine
+        if name.endswith("/consumer-last"):
+            nw.world.low_kind = "_wait_for_resp_msg"
         for i, ev in enumerate(script):
             if cut is not None and cut[0] == i and ev[0] == "m":
                 s = sc.sock(ev[1])
@@ -168,13 +180,28 @@ def run_scenario(spec, fault=None, cut=None, fine=False):
         steps = nw.world.steps - base
         nw.world.step_hooks.clear()
         nw.world.points_on = False
+        nw.world.low_kind = None
         if ch is not None:
             ch.active = False
         if kind == "hold":
             nw.apps[0].behaviour = "answer"     # from now on (the probe) requests are answered at once
-        # let every timeout pass
+        # let every timeout pass (connections of the consumer-last scenarios are kept alive by watchdog traffic meanwhile)
         for _ in range(9):
             sc.apply(("tick", 1))
+            if name.endswith("/consumer-last"):
+                for s_ in sc.socks:
+                    if not s_.fs.closed and not s_.env_closed:
+                        sc.apply(("m", s_.idx, "dwr"))
+        # a connection that has survived everything: each request it sent to a handler that answers (at once, slowly, or by raising -
+        # then the node answers 5012) has got its answer by now
+        if kind in ("basic", "threading") and outcome in ("answer", "slow", "raise"):
+            for s_ in sc.socks:
+                if s_.fs.closed or s_.env_closed:
+                    continue
+                answered = {(f.h.hbh, f.h.e2e) for f in s_.out if not f.h.is_request}
+                lost = [f for f in s_.inreq if f.h.code == 271 and (f.h.hbh, f.h.e2e) not in answered]
+                if lost:
+                    vs.append(("request-on-a-surviving-connection-never-answered", f"[{name}] socket {s_.idx}: {lost[:3]}"))
         vs += service_probe(sc, limit, f"{name}")
         return steps, vs
     except sk.Livelock as e:
@@ -378,11 +405,14 @@ def run(tier):
                 rep.add(Violation(k, d, c))
             rep.sample({"scenario": name + " (fault pairs)", "kernel_steps": steps, "executions": n}, 40)
     rep.cov.update({"evaluations": total, "distinct_nontrivial": distinct, "scenarios": len(specs), "exhaustive": True,
-                    "rule": "scenarios {inbound handshake, outbound handshake (immediate / in progress), request-answer with the basic application, watchdog, "
-                            "disconnect-peer, threading application with limit 0..3 x handler outcome {answer, none, raises, slow}}; for each: every "
+                    "rule": "scenarios {inbound handshake, outbound handshake (immediate / in progress), request-answer with the basic application, odd traffic, "
+                            "outbound request, watchdog, disconnect-peer, held answers, two connections, mutual dial, threading application with limit 0..3 x "
+                            "handler outcome {answer, none, raises, slow}, two slow requests on two connections with the answer consumer scheduled last}; for each: every "
                             "kernel step x fault {eof, reset, read error, write error (+connect failure)} and every frame x byte-boundary class {0, inside header, "
                             "header end, inside body, last byte} x {eof, reset}; then all timeouts pass and a probe peer must complete CE and get limit+2 requests "
-                            "delivered and answered 2001; thorough adds ordered pairs of faults; every case is a distinct (scenario, point, fault)"})
+                            "delivered and answered 2001, requests of surviving connections answered, no worker thread of an ended connection left; for 11 scenarios "
+                            "(thorough: all) additionally every fault at every source line of the message handlers / connection workers / answer path with the I/O "
+                            "thread reacting at once; thorough adds ordered pairs of faults; every case is a distinct (scenario, point, fault)"})
     rep.assumptions += ["probe requests are always answered by the handler; the scenario's own requests get the configured outcome"]
     return rep.finish()
 
